@@ -12,7 +12,7 @@ DRIVERS = ['/verif/drivers/list_templates.cpp']
 
 
 def all_units():
-    return [Unit(s) for s in SOURCES if s != 'Natural_Units.cpp'] + [Unit(d) for d in DRIVERS if os.path.exists(d)]
+    return [Unit(s) for s in SOURCES] + [Unit(d) for d in DRIVERS if os.path.exists(d)]
 
 
 def _hash_inputs(src):
